@@ -103,6 +103,12 @@ type cs struct {
 	Members []Member `json:"members"`
 	Spell   string   `json:"spell"`  // dec hex bin
 	GoType  string   `json:"gotype"` // for scalars: smallest | int64/uint64 ...
+	// program mode: an MPCL program whose first argument is given textually; Want = the decoded outputs flattened
+	Fam    string   `json:"fam,omitempty"`
+	Sub    string   `json:"sub,omitempty"`
+	Src    string   `json:"src,omitempty"`
+	Inputs []string `json:"inputs,omitempty"`
+	Want   []string `json:"want,omitempty"`
 }
 
 func bi(s string) *big.Int {
@@ -318,7 +324,11 @@ func runCase(ctx *runner.Ctx, k cs) {
 	ctx.Eval(1)
 	defer func() {
 		if r := recover(); r != nil {
-			ctx.Violate(k.Mode+".panic", fmt.Sprintf("panic: %v (%s)", r, shape(k.Members)), k)
+			site := k.Mode
+			if k.Fam != "" {
+				site += "." + k.Fam
+			}
+			ctx.Violate(site+".panic", fmt.Sprintf("panic: %v (%s %s)", r, shape(k.Members), strings.ReplaceAll(k.Src, "\n", " ; ")), k)
 		}
 	}()
 	switch k.Mode {
@@ -328,6 +338,8 @@ func runCase(ctx *runner.Ctx, k cs) {
 		runSizes(ctx, k)
 	case "result":
 		runResult(ctx, k)
+	case "program":
+		runProgram(ctx, k)
 	}
 }
 
@@ -816,6 +828,7 @@ func work(ctx *runner.Ctx) {
 		rec(nil, 0, 3)
 		pool = save
 	}
+	cases = append(cases, programCases(ctx.Quick())...)
 	ctx.Note(fmt.Sprintf("case list: %d cases", len(cases)))
 	for i, k := range cases {
 		if !ctx.Mine(i) {
